@@ -216,6 +216,147 @@ fn run_plain(try_: bool, n: usize, mask: usize, fail_at: Option<usize>, polls: u
     })
 }
 
+// ------------------------------------------------------------------------------------
+// streams of futures (FuturesUnorderedBounded, FuturesUnordered) and merges: a child whose
+// destructor panics when it is destroyed after completing; the oracle is the child's own record:
+// it is never polled after it completed and never destroyed twice
+
+#[derive(Default, Clone, Copy)]
+struct Life {
+    done: bool,
+    dropped: bool,
+}
+
+thread_local! {
+    static LIVES: RefCell<Vec<Life>> = RefCell::new(Vec::new());
+    static KEPT: RefCell<Vec<Waker>> = RefCell::new(Vec::new());
+}
+
+struct SFut {
+    id: usize,
+    ready_after: usize,
+    polls: usize,
+    bomb: bool,
+}
+
+impl SFut {
+    /// one poll; `true` = completes now
+    fn step(&mut self, cx: &mut Context<'_>) -> bool {
+        let id = self.id;
+        let again = LIVES.with(|l| l.borrow()[id].done || l.borrow()[id].dropped);
+        if again {
+            REG.with(|r| r.borrow_mut().bad.push(format!("child {id} was polled again after it had completed / been destroyed")));
+            return false;
+        }
+        // keep a clone of the waker: the scenario invokes it later, when it is stale
+        KEPT.with(|k| k.borrow_mut().push(cx.waker().clone()));
+        self.polls += 1;
+        if self.polls > self.ready_after {
+            LIVES.with(|l| l.borrow_mut()[id].done = true);
+            true
+        } else {
+            false
+        }
+    }
+}
+
+impl Drop for SFut {
+    fn drop(&mut self) {
+        let id = self.id;
+        let (done, twice) = LIVES.with(|l| {
+            let mut l = l.borrow_mut();
+            let t = l[id].dropped;
+            l[id].dropped = true;
+            (l[id].done, t)
+        });
+        if twice {
+            REG.with(|r| r.borrow_mut().bad.push(format!("child {id} was destroyed twice")));
+            return;
+        }
+        if self.bomb && done && !std::thread::panicking() {
+            panic!("bomb");
+        }
+    }
+}
+
+impl Future for SFut {
+    type Output = BTok;
+    fn poll(mut self: Pin<&mut Self>, cx: &mut Context<'_>) -> Poll<BTok> {
+        if self.step(cx) { Poll::Ready(BTok::new()) } else { Poll::Pending }
+    }
+}
+
+/// a source: ends (`None`) on poll number `ready_after + 1`
+struct SSrc(SFut);
+impl futures_core::Stream for SSrc {
+    type Item = BTok;
+    fn poll_next(mut self: Pin<&mut Self>, cx: &mut Context<'_>) -> Poll<Option<BTok>> {
+        if self.0.step(cx) { Poll::Ready(None) } else { Poll::Pending }
+    }
+}
+
+fn mk_s(n: usize, bomb_at: usize, mask: usize) -> Vec<SFut> {
+    LIVES.with(|l| *l.borrow_mut() = vec![Life::default(); n]);
+    KEPT.with(|k| k.borrow_mut().clear());
+    (0..n)
+        .map(|i| SFut { id: i, ready_after: if mask >> i & 1 == 1 { 0 } else { 2 }, polls: 0, bomb: i == bomb_at })
+        .collect()
+}
+
+/// kind 0: FuturesUnorderedBounded, 1: FuturesUnordered, 2: MergeBounded
+fn run_stream(kind: usize, n: usize, bomb_at: usize, mask: usize) -> Vec<String> {
+    use futures_buffered::{FuturesUnordered, FuturesUnorderedBounded, MergeBounded};
+    use futures_core::Stream;
+    REG.with(|r| *r.borrow_mut() = Reg::default());
+    let waker = noop_waker();
+    let mut cx = Context::from_waker(&waker);
+    let futs = mk_s(n, bomb_at, mask);
+    // poll a few times, waking every stale waker in between; panics are caught
+    macro_rules! drive {
+        ($c:expr) => {{
+            let mut c = Box::pin($c);
+            for _ in 0..(n + 4) {
+                let r = catch_unwind(AssertUnwindSafe(|| in_crate(|| c.as_mut().poll_next(&mut cx))));
+                if let Ok(Poll::Ready(Some(t))) = r {
+                    drop(t);
+                }
+                let ws: Vec<Waker> = KEPT.with(|k| k.borrow().clone());
+                for w in &ws {
+                    let _ = catch_unwind(AssertUnwindSafe(|| w.wake_by_ref()));
+                }
+            }
+            let _ = catch_unwind(AssertUnwindSafe(|| in_crate(move || drop(c))));
+        }};
+    }
+    match kind {
+        0 => {
+            let mut q = in_crate(|| FuturesUnorderedBounded::new(n));
+            for f in futs {
+                in_crate(|| q.push(f));
+            }
+            drive!(q)
+        }
+        1 => {
+            let mut q = in_crate(|| FuturesUnordered::with_capacity(1));
+            for f in futs {
+                in_crate(|| q.push(f));
+            }
+            drive!(q)
+        }
+        _ => {
+            let srcs: Vec<SSrc> = futs.into_iter().map(SSrc).collect();
+            let q: MergeBounded<SSrc> = in_crate(move || srcs.into_iter().collect());
+            drive!(q)
+        }
+    }
+    KEPT.with(|k| {
+        let ws = std::mem::take(&mut *k.borrow_mut());
+        let _ = catch_unwind(AssertUnwindSafe(move || drop(ws)));
+    });
+    crate::galloc::reset_depths();
+    REG.with(|r| std::mem::take(&mut r.borrow_mut().bad))
+}
+
 fn noop_waker() -> Waker {
     fn clone(_: *const ()) -> RawWaker {
         RawWaker::new(std::ptr::null(), &VT)
@@ -376,6 +517,27 @@ pub fn run_all(out_path: &str) -> bool {
                             all_ok = false;
                             let _ = writeln!(out, "bomb {name} VIOLATION {}", bad.join("; "));
                         }
+                    }
+                }
+            }
+        }
+    }
+    // streams and merges with a child whose destructor panics
+    for kind in 0..3usize {
+        for n in 1..=3usize {
+            for bomb_at in 0..n {
+                for mask in 0..(1usize << n) {
+                    let name = format!(
+                        "{} n={n} bomb={bomb_at} ready={mask:#b}",
+                        ["FuturesUnorderedBounded", "FuturesUnordered", "MergeBounded"][kind]
+                    );
+                    let bad = run_stream(kind, n, bomb_at, mask);
+                    count += 1;
+                    if bad.is_empty() {
+                        let _ = writeln!(out, "bomb {name} ok");
+                    } else {
+                        all_ok = false;
+                        let _ = writeln!(out, "bomb {name} VIOLATION {}", bad.join("; "));
                     }
                 }
             }
